@@ -13,6 +13,9 @@ CLAUSES = [
     # known finding D9: five leading markers survive as one
     G.P({"=====x": 1}),
     G.P({"~~~~~y": 1, "z": 2}),
+    # known finding D17 (found by the proof attempt of C07.renderNode_closed): a key with three markers is stripped
+    # once per pass and meets its sibling only after the last flattening pass
+    G.P({"a": {"x": True}, "===a": {"x": False}}),
 ]
 
 
@@ -77,6 +80,8 @@ class C07(ParamsProp):
             has_ref(req["layers"]) or len(req["layers"]) > 1 or any(isinstance(k, str) and k[:1] in "=~" for L in req["layers"] for k, _ in L["m"]))
 
     def matches_known(self, finding, req, impl, reply):
+        if finding.get("id") == "D17":
+            return self.matches_d17(req, impl, reply)
         if finding.get("id") != "D9":
             return False
         # the minimal failing case: some source key keeps a marker after five strips
@@ -97,6 +102,29 @@ class C07(ParamsProp):
         # only the recorded failure mode: the model agrees, and what fails is a leftover marker /
         # the fixed point, on an input that has a key with five or more leading markers
         return j["agree"] and any(nmarkers(k) >= 5 for L in req["layers"] for k in keys(L))
+
+
+    def matches_d17(self, req, impl, reply):
+        """only the recorded failure mode: the model agrees, the rendered output shows a layer list, and the input has a
+        key with three or more markers whose stripped name is also written by another key"""
+        def keys(x):
+            if isinstance(x, dict) and "m" in x:
+                for k, v in x["m"]:
+                    yield k
+                    yield from keys(v)
+            elif isinstance(x, list):
+                for v in x:
+                    yield from keys(v)
+        def split(k):
+            n = 0
+            while n < len(k) and k[n] in "=~":
+                n += 1
+            return n, k[n:]
+        ks = [split(k) for L in req["layers"] for k in keys(L) if isinstance(k, str)]
+        names = [b for _, b in ks]
+        hit = any(n >= 3 and names.count(b) >= 2 for n, b in ks)
+        j = self.judge(req, impl, reply)
+        return hit and j["agree"] and "layer list" in j.get("why", "")
 
 
 PROP = C07()
